@@ -53,6 +53,10 @@ impl Out {
 fn run_case(case: &Case, out: &mut Out) {
   match case.suite.as_str() {
     "pipe" | "time" => suites::pipe_suite::run(case, out),
+    "subject" | "behavior" => suites::subject_suite::run(case, out),
+    "groupby" => suites::groupby_suite::run(case, out),
+    "finalize" => suites::finalize_suite::run(case, out),
+    "flatten" => suites::flatten_suite::run(case, out),
     s => panic!("unknown suite {}", s),
   }
 }
